@@ -38,10 +38,47 @@ package yubiagent
 //@   modifies all
 //@   ensures true
 
-//@ # ---------------------------------------------------------------- C12: the request loop
+//@ # ---------------------------------------------------------------- C12 / C20: the request loop
+//@ # the served agent: abstract, every method may fail; none of them touches this connection's framing functions
+//@ interface (shimagent.ShimAgent).AddHardCert(key, comment)
+//@   flag logged
+//@   modifies all
+//@   ensures true
+//@ interface (shimagent.ShimAgent).Forward(req)
+//@   flag logged
+//@   modifies all
+//@   ensures true
+//@ interface (shimagent.ShimAgent).Wait(agentMsg)
+//@   flag logged
+//@   modifies all
+//@   ensures true
+//@ interface (YubiAgent).ListSlots()
+//@   flag logged
+//@   modifies all
+//@   ensures true
+//@ interface (YubiAgent).ReadSlot(slot)
+//@   flag logged
+//@   modifies all
+//@   ensures true
+//@ interface (YubiAgent).AttestSlot(slot)
+//@   flag logged
+//@   modifies all
+//@   ensures true
+
+//@ ghost func reads() int = calls(yubiagent.read) - old(calls(yubiagent.read))
+//@ ghost func responses() int = (calls(yubiagent.write) - old(calls(yubiagent.write))) + (calls(agent.ServeAgent) - old(calls(agent.ServeAgent)))
+
 //@ func ServeAgent(agent, c)
 //@   requires agent != nil && c != nil
+//@   requires typeof(agent) == *server ==> pl(agent) != 0
 //@   modifies all
-//@   ensures [clean-eof] result == nil ==> (calls(read) > old(calls(read)) && ret(read, calls(read) - 1, 1) == io.EOF)
+//@   ensures [clean-eof] result == nil ==> (reads() >= 1 && ret(yubiagent.read, calls(yubiagent.read) - 1, 1) == io.EOF)
+//@   ensures [one-response-per-request] result == nil ==> responses() == reads() - 1
+//@   ensures [never-more-responses-than-requests] responses() <= reads()
+//@   ensures [responses-go-to-the-peer] forall(i, old(calls(yubiagent.write)) <= i && i < calls(yubiagent.write), arg(yubiagent.write, i, 0) == c)
+//@   ensures [reads-come-from-the-peer] forall(i, old(calls(yubiagent.read)) <= i && i < calls(yubiagent.read), arg(yubiagent.read, i, 0) == c)
 //@   loop 1:
-//@     invariant true
+//@     invariant reads() >= 0 && responses() == reads()
+//@     invariant calls(yubiagent.write) >= old(calls(yubiagent.write)) && calls(agent.ServeAgent) >= old(calls(agent.ServeAgent))
+//@     invariant forall(i, old(calls(yubiagent.write)) <= i && i < calls(yubiagent.write), arg(yubiagent.write, i, 0) == c)
+//@     invariant forall(i, old(calls(yubiagent.read)) <= i && i < calls(yubiagent.read), arg(yubiagent.read, i, 0) == c)
